@@ -1,4 +1,5 @@
 import QrlModel.Proofs.DilVS
+import Std.Tactic.BVDecide
 /-! Specification-level readings of key generation and of the signing components: the equations of the Dilithium
 specification in the NTT domain over `ZMod q`, with canonical representatives. -/
 namespace Qrl.NttBridge
@@ -59,6 +60,88 @@ theorem sigZ_spec (c : Poly) (hc : Good (-1) 1 c) (s1 y : List Poly) (hs1 : ∀ 
   obtain ⟨eY, _⟩ := ntt_all y 524288 (fun p hp => (hy p hp).mono (by norm_num) (by norm_num)) (by norm_num) (by norm_num)
   obtain ⟨eZ, _⟩ := ntt_all (sigZ (ntt c) s1 y) 6283009 (fun p hp => (gz p hp).mono (by norm_num) (by norm_num)) (by norm_num) (by norm_num)
   rw [← eZ, ez, ecp, eS, eY]
+
+/-- **verification, NTT domain**: the verifier's `w′ = A·z − c·t1·2^d` over `ZMod q`, canonical in `[0, q)` — for every response `z`
+with coefficients in (−γ1, γ1] (as every decoded `z` has), every decoded `t1` and every challenge -/
+theorem verV_spec (row : List Poly) (c : Poly) (z : List Poly) (t1i : Poly) (hrow : ∀ p ∈ row, Good 0 8380416 p) (hrl : row.length ≤ 8)
+    (hc : Good (-1) 1 c) (hz : ∀ p ∈ z, Good (-524287) 524288 p) (ht1 : Good 0 1023 t1i) :
+    NTT (V (verV row (ntt c) z t1i)) =
+      List.zipWith (· - ·) (accF 1 (row.map V) ((z.map V).map NTT))
+        (List.zipWith (· * ·) (NTT (V c)) (NTT ((V t1i).map (· * (8192 : Fq))))) ∧
+    Good 0 8380416 (verV row (ntt c) z t1i) := by
+  obtain ⟨ecp, gcp⟩ := G_ntt c 1 hc (by norm_num) (by norm_num)
+  have gcp' : Good (-(1 + 8 * 8380417)) (1 + 8 * 8380417) (ntt c) := gcp
+  obtain ⟨eZ, gZ⟩ := ntt_all z 524288 (fun p hp => (hz p hp).mono (by norm_num) (by norm_num)) (by norm_num) (by norm_num)
+  obtain ⟨ev, gv⟩ := verV_facts row (ntt c) z t1i hrow hrl gcp' (fun p hp => (gZ p hp).1) ht1
+  have hA : ∀ x ∈ row.map V, x.length = 256 := by
+    intro x hx; obtain ⟨p, hp, rfl⟩ := List.mem_map.mp hx; rw [V_length]; exact (hrow p hp).1
+  have hZ : ∀ x ∈ (z.map ntt).map V, x.length = 256 := by
+    intro x hx; obtain ⟨p, hp, rfl⟩ := List.mem_map.mp hx; rw [V_length]; exact (gZ p hp).1
+  have lZ := (accF_toFun ρ _ _ hA hZ).1
+  have hC : (V (ntt c)).length = 256 := by rw [V_length]; exact gcp.1
+  have hT : (NTT ((V t1i).map (· * (8192 : Fq)))).length = 256 := NTT_length _ (by rw [List.length_map, V_length]; exact ht1.1)
+  have lX : (List.zipWith (· - ·) (accF ρ (row.map V) ((z.map ntt).map V))
+      ((List.zipWith (· * ·) (V (ntt c)) (NTT ((V t1i).map (· * (8192 : Fq))))).map (· * ρ))).length = 256 := by
+    simp only [List.length_zipWith, List.length_map, lZ, hC, hT]; rfl
+  refine ⟨?_, gv⟩
+  rw [ev, NTT_INV_κ _ lX, map_zipWith_sub_smul, accF_scale ρ (256 * κ) _ _ hA hZ, map_smul_smul, hκ', map_mul_one, eZ, ecp]
+
+theorem t1Unpack_lane_range (a0 a1 a2 a3 a4 : BitVec 8) : ∀ x ∈ polyT1Unpack_lane a0 a1 a2 a3 a4, x < 1024#32 := by
+  intro x hx
+  simp only [polyT1Unpack_lane, List.mem_cons, List.mem_nil_iff, or_false] at hx
+  rcases hx with rfl | rfl | rfl | rfl <;> bv_decide
+
+/-- every decoded `t1` polynomial has 256 coefficients in [0, 2^10) -/
+theorem polyT1Unpack_facts (b : Bytes) (hl : 320 ≤ b.length) : Good 0 1023 (polyT1Unpack b) := by
+  constructor
+  · rw [DilPack.polyT1Unpack_eq]
+    have h5 : (b.take 320).length = 5 * 64 := by rw [List.length_take]; omega
+    have := (flatMap_chunks_length 5 4 (by decide) DilPack.t1U (by
+      intro c hc
+      match c, hc with
+      | [c0,c1,c2,c3,c4], _ => rfl) 64 (b.take 320) h5).1
+    simpa using this
+  · intro x hx
+    rw [DilPack.polyT1Unpack_eq] at hx
+    obtain ⟨c, _, hxc⟩ := List.mem_flatMap.mp hx
+    unfold DilPack.t1U at hxc
+    split at hxc
+    · have h := t1Unpack_lane_range _ _ _ _ _ x hxc
+      rw [BitVec.lt_def] at h
+      have hn : (1024#32 : BitVec 32).toNat = 1024 := by rfl
+      rw [hn] at h
+      have : x.toInt = x.toNat := by
+        rw [BitVec.toInt_eq_toNat_cond]; split <;> omega
+      omega
+    · simp at hxc
+
+/-- every decoded `z` polynomial has 256 coefficients in (−γ1, γ1] -/
+theorem polyZUnpack_facts (b : Bytes) (hl : 640 ≤ b.length) : Good (-524287) 524288 (polyZUnpack b) := by
+  refine ⟨polyZUnpack_length b hl, ?_⟩
+  intro x hx
+  have := polyZUnpack_range b x hx
+  have h := slt_sle_toInt x (-524288) 524288 (by omega) (by omega) (by simpa using this)
+  omega
+
+/-- the `z` and `t1` vectors the verifier works with are in these ranges for every signature / public key of the right size -/
+theorem decoded_ranges (sig pk : Bytes) (hs : sig.length = CryptoBytes) (hp : pk.length = CryptoPublicKeyBytes) :
+    (∀ p ∈ (chunks 640 ((sig.drop 32).take (L * 640))).map polyZUnpack, Good (-524287) 524288 p) ∧
+    (∀ p ∈ (chunks 320 ((pk.drop 32).take (K * 320))).map polyT1Unpack, Good 0 1023 p) := by
+  have hC : CryptoBytes = 4595 := rfl
+  have hP : CryptoPublicKeyBytes = 2592 := rfl
+  have hL : L = 7 := rfl
+  have hK : K = 8 := rfl
+  constructor
+  · intro p hpm
+    obtain ⟨c, hc, rfl⟩ := List.mem_map.mp hpm
+    have hl : ((sig.drop 32).take (L * 640)).length = 640 * L := by rw [List.length_take, List.length_drop]; omega
+    have := (flatMap_chunks_length 640 0 (by decide) (fun _ => ([] : List Nat)) (fun _ _ => rfl) L _ hl).2 c hc
+    exact polyZUnpack_facts c (by omega)
+  · intro p hpm
+    obtain ⟨c, hc, rfl⟩ := List.mem_map.mp hpm
+    have hl : ((pk.drop 32).take (K * 320)).length = 320 * K := by rw [List.length_take, List.length_drop]; omega
+    have := (flatMap_chunks_length 320 0 (by decide) (fun _ => ([] : List Nat)) (fun _ _ => rfl) K _ hl).2 c hc
+    exact polyT1Unpack_facts c (by omega)
 
 theorem rowsT_spec (s1 : List Poly) (hs1 : ∀ p ∈ s1, Good (-2) 2 p) : ∀ (mat : List (List Poly)) (s2 : List Poly),
     (∀ row ∈ mat, (∀ p ∈ row, Good 0 8380416 p) ∧ row.length ≤ 8) → (∀ p ∈ s2, Good (-2) 2 p) →
